@@ -1036,7 +1036,10 @@ func (x *Exec) builtin(name string, e *ast.CallExpr, st *State) Value {
 				return x.constOfSort(at.Len(), is)
 			}
 		case *types.Chan:
-			x.assertSafety(st, "structure", "len/cap of a channel is never used", tFalse, e.Pos())
+			// whatever else the function serves, behaviour that depends on how full or how large a channel is
+			// makes the event stream depend on buffering (C14) and on the consumer's timing (C03)
+			tags := append(append([]string{}, x.safetyTags...), "C14", "C03")
+			x.assert(st, "safety/structure", "len/cap of a channel is never used", tFalse, tags, e.Pos())
 			return x.vc.fresh("chlen", is)
 		}
 	case "append":
